@@ -295,9 +295,10 @@ func (l *commitLog) EarliestOffsetAfterTimestamp(timestamp int64) (int64, error)
 	l.mu.RLock()
 	defer l.mu.RUnlock()
 
-	// Find the first segment whose base timestamp is greater than the given
-	// timestamp.
-	idx, err := findSegmentIndexByTimestamp(l.segments, timestamp)
+	// Find the first segment whose base timestamp is greater than or equal to
+	// the given timestamp. Equal counts: messages with exactly this timestamp
+	// may sit at the end of the previous segment as well.
+	idx, err := findSegmentIndexByTimestamp(l.segments, timestamp, true)
 	if err == io.EOF {
 		// EOF indicates there is no such segment, meaning the timestamp is
 		// beyond the end of the log so return the next assignable offset.
@@ -347,7 +348,7 @@ func (l *commitLog) LatestOffsetBeforeTimestamp(timestamp int64) (int64, error) 
 
 	// Find the first segment whose base timestamp is greater than the given
 	// timestamp.
-	idx, err := findSegmentIndexByTimestamp(l.segments, timestamp)
+	idx, err := findSegmentIndexByTimestamp(l.segments, timestamp, false)
 	if err != nil {
 		return 0, errors.Wrap(err, "failed to find log segment for timestamp")
 	}
